@@ -6,7 +6,7 @@ DECIDING = ['peptacular.score.get_matched_indices', 'peptacular.score.match_spec
 RULE = ('pairs of sorted m/z lists of length 0..30 on a coarse binary-exact grid (ties, overlapping windows) and off-grid; '
         'tolerance type ppm/th; tolerance from 0 to larger than the whole range; modes all/closest/largest; post-conditions '
         'with a quadratic brute-force matcher that uses the same floating-point expressions for the window bounds; '
-        'get_fragment_matches on shuffled fragment lists and spectra, matched-intensity fraction, match coverage and the '
+        'get_fragment_matches on shuffled fragment lists and spectra (35%: followed by a history on one spectrum - the same peak list objects edited in place between calls, the same m/z axis with other intensities), matched-intensity fraction, match coverage and the '
         'success count inside binomial_score. signature = (function, mode, tolerance type, tolerance class, list-length '
         'buckets, ties present, #matches bucket); non-trivial = at least one theoretical value has at least two peaks in window '
         'or the lists contain ties')
@@ -185,10 +185,36 @@ def fragment_level(ctx, st, pt, rng):
     mode = rng.choice(['all', 'closest', 'largest'])
     shuffled = list(frags)
     rng.shuffle(shuffled)
-    case = {'sequence': seq_text, 'n_fragments': len(frags), 'peaks': peaks, 'intensities': inten, 'tolerance': tol,
-            'type': ttype, 'mode': mode}
+    one_spectrum(ctx, st, pt, rng, seq, seq_text, frags, shuffled, list(peaks), list(inten), tol, ttype, mode, False)
+    if peaks and rng.random() < 0.35:
+        # one spectrum held by the caller and edited in place between calls (re-normalised intensities, recalibrated
+        # m/z values), and one m/z axis seen again with other intensities: every call answers for the lists as they are
+        # at that moment
+        P, I = list(peaks), list(inten)
+        m2 = rng.choice(['largest', 'largest', mode])
+        one_spectrum(ctx, st, pt, rng, seq, seq_text, frags, shuffled, P, I, tol, ttype, m2, True)
+        hi = max(I)
+        for j in range(len(I)):
+            I[j] = round(hi + 1 - I[j], 1)                    # same list object, ranking reversed
+        one_spectrum(ctx, st, pt, rng, seq, seq_text, frags, shuffled, P, I, tol, ttype, m2, True)
+        one_spectrum(ctx, st, pt, rng, seq, seq_text, frags, shuffled, list(P), [round(rng.uniform(1, 100), 1) for _ in P],
+                     tol, ttype, m2, True)                    # equal m/z values, fresh objects, other intensities
+        d = rng.choice([0.3, -0.3, 0.005, -0.015, 1.0])
+        moved = [round(x + d, 4) for x in P]
+        if len(set(moved)) == len(moved):
+            for j in range(len(P)):
+                P[j] = moved[j]                               # same list object, recalibrated
+            one_spectrum(ctx, st, pt, rng, seq, seq_text, frags, shuffled, P, I, tol, ttype, m2, True)
+
+
+def one_spectrum(ctx, st, pt, rng, seq, seq_text, frags, shuffled, peaks, inten, tol, ttype, mode, held):
+    case = {'sequence': seq_text, 'n_fragments': len(frags), 'peaks': list(peaks), 'intensities': list(inten),
+            'tolerance': tol, 'type': ttype, 'mode': mode, 'held_lists': held}
     ctx.begin(case)
-    got = observe(st, pt, 'get_fragment_matches', list(shuffled), list(peaks), list(inten), tol, ttype, mode)
+    if held:
+        got = observe(st, pt, 'get_fragment_matches', list(shuffled), peaks, inten, tol, ttype, mode)
+    else:
+        got = observe(st, pt, 'get_fragment_matches', list(shuffled), list(peaks), list(inten), tol, ttype, mode)
     ctx.decided()
     if got is None or got[0] != 'ok':
         ctx.violation('get_fragment_matches-raises', {'case': case, 'observed': got})
@@ -250,12 +276,13 @@ def fragment_level(ctx, st, pt, rng):
             cov[lab][i] += 1
     if got is None or got[0] != 'ok' or dict(got[1]) != cov:
         ctx.violation('match-coverage-wrong', {'case': case, 'expected': cov, 'observed': got})
-    ctx.sig(('fragment-level', mode, ttype, tol == 0, min(len(peaks), 3), min(len(matches), 4)), len(matches) >= 2)
+    ctx.sig(('fragment-level', mode, ttype, tol == 0, min(len(peaks), 3), min(len(matches), 4), held), len(matches) >= 2)
 
 
 def run(ctx):
     st = State()
     pt = install(ctx, st)
+    ctx.enable_disturb(pt, 0.01)     # other legitimate library calls interleaved between cases (vf.gen.disturb)
     rng = ctx.rng
     for _ in range(ctx.n(100000, 5000000)):
         theo, obs, tol, ttype, grid = gen_lists(rng)
